@@ -48,7 +48,11 @@ def compare(ctx, job, m, o, tag, failed):
     for k in o["values"]:
         if k in hidden:
             return ctx.violation("hidden-output-exposed", wit, f"{k} is not selected by the nested graph but is returned")
-    an, af = leaf_args(o["calls"]), leaf_args(of["calls"])
+    # "a nested graph receives exactly the values addressed to its inputs": the functions INSIDE nested graphs
+    inner_names = {c["path"].rsplit("/", 1)[-1] for c in o["calls"] if "/" in c["path"]} | \
+                  {n2["name"] for p2, n2 in IR.all_nodes(job["prog"]) if "/" in p2 and n2["kind"] != "graph"}
+    an = {k: v for k, v in leaf_args(o["calls"]).items() if k in inner_names}
+    af = {k: v for k, v in leaf_args(of["calls"]).items() if k in inner_names}
     if an != af:
         bad = sorted(n for n in set(an) | set(af) if an.get(n) != af.get(n))
         return ctx.violation("inner-arguments", wit, f"functions {bad} received different arguments in the nested graph: {[an.get(b) for b in bad]} vs {[af.get(b) for b in bad]}")
